@@ -33,7 +33,7 @@ Definition d_aop (v : val) : aop :=
   end.
 
 Definition v_value (x : value) : val :=
-  match x with VStr s => L [I 0; vstr s] | VInt z => L [I 1; I z] end.
+  match x with VStr s => L [I 0; vstr s] | VInt z => L [I 1; I z] | VOther s => L [I 2; vstr s] end.
 Definition v_params (p : params) : val := vlist (vpair vstr v_value) p.
 Definition v_groups (g : sgroups) : val := vlist (vpair vstr (vopt vstr)) g.
 
@@ -52,6 +52,7 @@ Definition v_outcome (o : outcome) : val :=
 Definition d_value (v : val) : value :=
   match v with
   | L [I 1; I z] => VInt z
+  | L [I 2; s] => VOther (dstr s)
   | L [I _; s] => VStr (dstr s)
   | _ => VStr []
   end.
